@@ -123,6 +123,8 @@ def grammar(n, seed):
             inames = rng.sample(pool, len(itypes))
             inner = Shape(sid, f"Inner{sid}", [("pub", nm, t[0], False) for nm, t in zip(inames, itypes)], vis, list(derives), list(soa), [], cls="grammar-inner")
             nested = inner
+            # (an impl requested for the outer vector through soa_attr needs the same impl on the nested vector: the user's business, not the derive's)
+            attrs = [(k, a) for k, a in attrs if not a.startswith("derive(")]
             pos = rng.randrange(len(fields) + 1)
             fields.insert(pos, ("pub" if vis == "pub" else fvis(), rng.choice([x for x in pool if x not in names]), f"Inner{sid}", True))
         drop = rng.random() < 0.15 and "Clone" not in soa
